@@ -47,6 +47,8 @@ var _ uuid.UUID
 // interpretation of qP; a client fixes one (e.g. "created during this call") to learn that what it pops is something it pushed.
 //@ ufunc qP(*PriorityQueueItem) bool
 //@ spec itemsOK(h heap.Interface, n int) bool = forall c int :: 0 <= c && c < n ==> qs(h)[c] != nil && allocated(qs(h)[c]) && istype(qs(h)[c], PriorityQueueItem) && !isnan(qs(h)[c].priority) && qP(qs(h)[c])
+// allQ: what a client needs to know about a queue's contents, without the order: every item is a typed, allocated item with qP
+//@ spec allQ(h heap.Interface) bool = hdyn(h) && forall c int :: 0 <= c && c < len(qs(h)) ==> qs(h)[c] != nil && allocated(qs(h)[c]) && istype(qs(h)[c], PriorityQueueItem) && qP(qs(h)[c])
 //@ spec hdyn(h heap.Interface) bool = (isMin(h) || isMax(h)) && h.pay != 0
 //@ spec sameTail(h heap.Interface, n int) bool = true
 
